@@ -14,8 +14,29 @@ type CaseSpec struct {
 	Pos  string `json:"pos"`
 }
 
+// formDecls are the declarations some forms bring along (named types over arrays, times, maps).
+var formDecls = map[string]string{
+	"namedarray": "\ntype Pair [2]int\n",
+	"namedtime":  "\ntype Day time.Time\n",
+	"namedmap":   "\ntype Table map[string]int\n",
+}
+
 func formType(form string) (typ string, imports []string) {
 	switch form {
+	case "namedarray":
+		return "Pair", nil
+	case "namedtime":
+		return "Day", []string{"time"}
+	case "namedmap":
+		return "Table", nil
+	case "structval":
+		return "Leaf", nil
+	case "plainarray":
+		return "[2]int", nil
+	case "time":
+		return "time.Time", []string{"time"}
+	case "duration":
+		return "time.Duration", []string{"time"}
 	case "ptr":
 		return "*int", nil
 	case "ptrstruct":
@@ -101,7 +122,7 @@ func renderCase(id int, cs CaseSpec) (files map[string]string, source string) {
 			return
 		}
 		typ, imps := formType(cs.Form)
-		body := commonDecls
+		body := commonDecls + formDecls[cs.Form]
 		if cs.Pos != "subpkg" {
 			files[dir+"/extra.go"] = head(dir) + extraDecls
 		}
@@ -129,7 +150,7 @@ func renderCase(id int, cs CaseSpec) (files map[string]string, source string) {
 			body += "\ntype Member struct{ X " + typ + " }\n\nfunc (Member) isShape() {}\n"
 			field = "X Shape"
 		case "subpkg":
-			files[dir+"/sub/sub.go"] = head("sub", imps...) + commonDecls + extraDecls + "\ntype S struct{ X " + typ + " }\n"
+			files[dir+"/sub/sub.go"] = head("sub", imps...) + commonDecls + formDecls[cs.Form] + extraDecls + "\ntype S struct{ X " + typ + " }\n"
 			files[source] = head(dir, pkgPath+"/sub") + "type Holder struct {\n\tA int\n\tX sub.S\n}\n"
 			return
 		case "genericarg":
